@@ -108,14 +108,15 @@ class Sources:
         return self.modules[name]
 
     def func(self, fid):
-        mod, q = fid.split(":")
+        """fid may carry a variant tag (`module:Qual.name@tag`): a second contract on the same function (e.g. a known-finding witness class)."""
+        mod, q = fid.split("@")[0].split(":")
         m = self.module(mod)
         if q not in m.funcs:
             raise KeyError("function %s not found in %s" % (q, m.path))
         return m.funcs[q]
 
     def has_func(self, fid):
-        mod, q = fid.split(":")
+        mod, q = fid.split("@")[0].split(":")
         try:
             return q in self.module(mod).funcs
         except FileNotFoundError:
@@ -150,6 +151,12 @@ class Sources:
             return (mod, name)
         if name in m.imports:
             src, orig = m.imports[name]
+            if src.startswith("twosigma.memento.") and orig:   # absolute import inside the package
+                src = "." + src[len("twosigma.memento."):]
+            elif src == "twosigma.memento" and orig:
+                init = self.module("__init__")
+                if orig in init.imports:
+                    return self.resolve_class("__init__", orig)
             if src.startswith(".") and orig:
                 tgt = src.lstrip(".")
                 try:
